@@ -197,6 +197,13 @@ class DictionaryDataBase(DataBase):
                     return True
             return False
 
+    def remove_by_id(self, index: int) -> bool:
+        """
+        Atomically remove the data object stored under the given identifier.
+        """
+        with self._lock:
+            return self.database.pop(index, None) is not None
+
     def all(self) -> tuple:
         """
         Get all data from the database.
